@@ -122,6 +122,10 @@ func (tm *TypeMap) structSort(t types.Type, st *types.Struct) string {
 	for i := 0; i < st.NumFields(); i++ {
 		f := st.Field(i)
 		si.fields = append(si.fields, fmt.Sprintf("%s_%d_%s", name, i, sanitize(f.Name())))
+		selectorInfo[si.fields[len(si.fields)-1]] = struct {
+			ctor string
+			idx  int
+		}{si.ctor, i}
 		fs := tm.SortOf(f.Type())
 		si.fsorts = append(si.fsorts, fs)
 	}
@@ -251,6 +255,9 @@ func (tm *TypeMap) typeFacts(v Term, t types.Type, depth int) Term {
 			if ok {
 				return And(Le(BigLit(lo), v), Le(v, BigLit(hi)))
 			}
+		}
+		if u.Info()&types.IsString != 0 {
+			return Le(App("str.len", SInt, v), Term{"4611686018427387904", SInt})
 		}
 	case *types.Slice:
 		ln, cp, off, base := App("s-len", SInt, v), App("s-cap", SInt, v), App("s-off", SInt, v), App("s-base", SInt, v)
